@@ -69,6 +69,7 @@ RUNTIME_C12 = {
         {"name": "heap_retain_contract", "bound": True, "fn": "heap.rs heap_retain on the real slotmap"},
         {"name": "heap_release_contract", "bound": True, "fn": "heap.rs heap_release / heap_release_closure on the real slotmap"},
         {"name": "heap_dangling_handle_is_inert", "bound": True, "fn": "heap.rs all three + slotmap key versioning"},
+        {"name": "heap_stale_handle_after_empty", "bound": True, "fn": "heap.rs: a released handle stays dead across an empty storage"},
         {"name": "slotmap_model_validation", "bound": True, "fn": "slotmap::SlotMap::{insert,get_mut,remove} vs the trusted Verus model"},
     ],
 }
